@@ -272,6 +272,8 @@ MATRIX_IDENTITY: Matrix = (1, 0, 0, 1, 0, 0)
 def parse_rect(o: Any) -> Rect:
     try:
         (x0, y0, x1, y1) = (float(v) for v in o)
+        if not all(math.isfinite(v) for v in (x0, y0, x1, y1)):
+            raise PDFValueError("Rectangle is not finite")
         # A rectangle may be given by any two diagonally opposite corners
         return min(x0, x1), min(y0, y1), max(x0, x1), max(y0, y1)
     except (TypeError, ValueError):
